@@ -207,9 +207,13 @@ def q2(run, project):
     # discover the pulled variable and the emptiness flag
     pulls = [n for n in cfg.nodes if n.kind == "stmt" and isinstance(n.ast, ast.Assign) and isinstance(n.ast.value, ast.Call)
              and call_name(n.ast.value) == "next" and norm(n.ast.value.args[0]) == gen]
-    if not pulls:
-        raise AnalysisError("Q2: no next(events_generator) in pretty_list_elems")
-    var = pulls[0].ast.targets[0].id
+    for_pulls = [n for n in cfg.nodes if n.kind == "for" and norm(n.ast.iter) == gen and isinstance(n.ast.target, ast.Name)]
+    if not pulls and not for_pulls:
+        raise AnalysisError("Q2: pretty_list_elems pulls no event from events_generator")
+    pvars = {n.ast.targets[0].id for n in pulls} | {n.ast.target.id for n in for_pulls}
+    if len(pvars) != 1:
+        raise AnalysisError(f"Q2: pulled events are held in several variables {sorted(pvars)}")
+    var = pvars.pop()
     flags = {norm(n.ast.targets[0]) for n in cfg.nodes if n.kind == "stmt" and isinstance(n.ast, ast.Assign)
              and isinstance(n.ast.value, ast.Constant) and isinstance(n.ast.value.value, bool)}
     flag = next(iter(flags)) if len(flags) == 1 else None
@@ -258,6 +262,16 @@ def q2(run, project):
                     if (fl != neg) != outcome:
                         continue
                 work.append((s, st))
+            continue
+        if node.kind == "for" and node in for_pulls:
+            for lab, s in node.succ:
+                if lab == "iter":
+                    if ch == "HELD":
+                        viol.append((node, f"`{var}` is overwritten by the next pulled event before it was shown (event dropped)", node.ast))
+                    work.append((s, ("HELD", pa, fl)))
+                else:
+                    # exhausted: the loop variable keeps the last event it was bound to
+                    work.append((s, st))
             continue
         if node.kind in ("entry", "handler", "for"):
             for lab, s in node.succ:
